@@ -341,13 +341,28 @@ class JSONRPCMessage(McpPydanticBase):  # type: ignore[no-redef]
         # Only exclude None values when exclude_none=True is explicitly set
         if kwargs.get("exclude_none", False):
             result = {k: v for k, v in result.items() if v is not None}
+            if self._is_null_id_error():
+                result["id"] = None
 
         return result
+
+    def _is_null_id_error(self) -> bool:
+        """An error response whose request id could not be determined carries "id": null."""
+        return self.error is not None and self.id is None and self.method is None
 
     def model_dump_json(self, **kwargs) -> str:
         """Dump model as JSON."""
         if "exclude_none" not in kwargs:
             kwargs["exclude_none"] = True
+        if kwargs["exclude_none"] and self._is_null_id_error():
+            # Keep the null id that exclude_none would drop
+            import json
+
+            indent = kwargs.pop("indent", None)
+            separators = None if indent else (",", ":")
+            return json.dumps(
+                self.model_dump(**kwargs), indent=indent, separators=separators
+            )
         return super().model_dump_json(**kwargs)
 
     @classmethod
